@@ -198,34 +198,23 @@ fn members(t: &Tree, o: ArchiveOpts, rng: &mut Rng) -> (Vec<Member>, Tree) {
     (v, eff)
 }
 
-/// a member as register_file parses it: directory segments ++ [stem], extension
+/// a member as the archive names it: the components std::path reports for the name (`..` and `.`
+/// included) and whether it is a directory; the parsing is the model's (Corr/SrcCheck.v)
 fn member_coq(m: &Member) -> String {
     let (path, is_dir) = match m {
         Member::File(p, _) => (p.as_str(), false),
         Member::Dir(p) => (p.as_str(), true),
     };
-    let path = path.strip_prefix("./").unwrap_or(path).trim_end_matches('/');
-    let mut segs: Vec<String> = vec![];
-    for x in path.split('/') {
-        match x {
-            "." => {}
-            ".." => {
-                segs.pop();
-            }
-            _ => segs.push(x.to_string()),
-        }
-    }
-    if is_dir {
-        format!("MDir {}", id_coq(&segs))
-    } else {
-        let last = segs.pop().unwrap();
-        let (stem, ext) = match last.rfind('.') {
-            Some(i) => (last[..i].to_string(), last[i + 1..].to_string()),
-            None => (last.clone(), String::new()),
-        };
-        segs.push(stem);
-        format!("MFile {} {}", id_coq(&segs), cstr(&ext))
-    }
+    let comps: Vec<String> = Path::new(path)
+        .components()
+        .map(|c| match c {
+            std::path::Component::Normal(s) => format!("PN {}", cstr(s.to_str().unwrap())),
+            std::path::Component::ParentDir => "PP".to_string(),
+            std::path::Component::CurDir => "PC".to_string(),
+            _ => "PN \"/\"".to_string(),
+        })
+        .collect();
+    format!("({}, {})", clist(&comps), is_dir)
 }
 
 fn zip_bytes(ms: &[Member], o: ArchiveOpts) -> Vec<u8> {
@@ -553,7 +542,7 @@ pub fn run(a: &Args) {
     let n_trees = if a.thorough() { 120 } else { 12 };
     let mut cases = Cases::new();
     let g = cases.group("src_cases", "tree * list (query * answer)");
-    let ga = cases.group("arch_cases", "list member * list (query * answer)");
+    let ga = cases.group("arch_cases", "list raw_member * list (query * answer)");
     let mut labels: std::collections::BTreeMap<String, u64> = Default::default();
     let mut iter_bad = vec![];
     let mut conc_reads = 0u64;
